@@ -7,6 +7,7 @@ import json, os, re, shutil, subprocess, sys, tempfile
 
 ENV = dict(os.environ, GOFLAGS="-mod=mod", GOPROXY="off", GOSUMDB="off", GOTOOLCHAIN="local")
 ENV.pop("GOWORK", None)
+PREFIX = ""
 
 def run(cmd, cwd, timeout=1500):
     p = subprocess.run(cmd, cwd=cwd, shell=True, env=ENV, capture_output=True, text=True, timeout=timeout)
@@ -14,11 +15,21 @@ def run(cmd, cwd, timeout=1500):
 
 def main():
     pid, m = sys.argv[1], sys.argv[2]
-    src = f"/tmp/wt/{pid}/seeded/{m}"
+    base = os.environ.get("SEED_BASE", "/tmp/wt")
+    global PREFIX
+    PREFIX = os.environ.get("SEED_PREFIX", "")
+    src = f"{base}/{pid}/seeded/{m}"
     meta = json.load(open(f"{src}/meta.json"))
     demo_cmd = meta["demo_cmd"]
     mm = re.search(r"cp\s+\S*demo_test\.go\s+(\S+)", demo_cmd)
-    dest_rel = mm.group(1)
+    if mm:
+        dest_rel = mm.group(1)
+    else:
+        # no cp in the command: the package directory is the one the test is run in
+        pm = re.search(r"\./(s2/s2intersect|s2|s1|r1|r2|r3)\b", demo_cmd)
+        pk = pm.group(1) if pm else "s2"
+        if not pm and re.search(r"cd\s+s1\b", demo_cmd): pk = "s1"
+        dest_rel = f"{pk}/zz_seed_{pid}_{m}_test.go"
     pkgdir = os.path.dirname(dest_rel)
     race = "-race" in demo_cmd.split("(")[0]
     tm = re.search(r"-run\s+'?([A-Za-z0-9_$^]+)'?", demo_cmd)
@@ -59,7 +70,7 @@ def finish(result, wt, src, ok, meta=None, dest_rel=None):
     result["confirmed"] = ok
     print(json.dumps({k: v for k, v in result.items() if k != "demo_output_with_change"}))
     if ok:
-        dst = f"/verif/seeded/{result['property']}-{result['mutant']}"
+        dst = f"/verif/seeded/{result['property']}-{PREFIX}{result['mutant']}"
         os.makedirs(dst, exist_ok=True)
         shutil.copy(f"{src}/patch.diff", dst)
         shutil.copy(f"{src}/demo_test.go", dst + "/demo_test.go.txt")
